@@ -116,6 +116,9 @@ def _fault_word(kind, thumb, rng, cell=None):
     def th(w):
         return w if w > 0xFFFF else (w << 16 | 0xBF00)
     if kind == 'svc':
+        # the immediate is ignored by the processor: also the numbers that debuggers / semihosting layers give a meaning (0x123456, 0xAB, 0)
+        if rng.random() < 0.4:
+            return th(T.svc(rng.choice([0xAB, 0xAB, 0x00, 0xFF]))) if thumb else A.svc(rng.choice([0x123456, 0x123456, 0xAB, 0, 0xFFFFFF]))
         return th(T.svc(rng.getrandbits(8))) if thumb else A.svc(rng.getrandbits(24))
     if kind == 'und':
         if thumb:
@@ -207,6 +210,10 @@ def gen_cell(cell, rng, rep):
         regs[0] = (1 | 31 << 1, 0, 3 << 8)                       # 4 GiB, full access
         regs[5] = (1 | 4 << 1, G.DATA + 0x400, 0)                # 32 bytes, no access, higher priority
         sys.update(G.mpu_sys(regs))
+    if kind in ('svc', 'smc', 'und') and rng.random() < 0.5:
+        # ... with the register contents such a layer would look at: an operation number in r0, a parameter block pointer in r1
+        R['R0usr'] = rng.choice([0x01, 0x02, 0x03, 0x04, 0x05, 0x06, 0x07, 0x09, 0x0A, 0x0C, 0x0E, 0x10, 0x11, 0x12, 0x13, 0x15, 0x16, 0x18, 0x18, 0x18, 0x20, 0x30, 0x31])
+        R['R1usr'] = rng.choice([G.DATA + 0x800, 0x20026, 0, G.DATA + 0x80C])
     if kind == 'dabt':
         R['R1usr'] = G.DATA + 0x400 + (rng.choice([1, 2, 3]) if want_align else 4 * rng.randrange(0, 8))
     state = {'cpsr': cpsr, 'pc': pc, 'sys': sys, 'R': R, 'spsr': G.random_spsrs(rng, cfg), 'elr_hyp': rng.getrandbits(32)}
